@@ -1,7 +1,9 @@
 package np
 
 import (
+	"fmt"
 	"go/token"
+	"go/types"
 	"strings"
 
 	"golang.org/x/tools/go/ssa"
@@ -36,24 +38,115 @@ func condAtom(t *Termer, v ssa.Value) (string, bool) {
 			return a, !p
 		}
 	case *ssa.BinOp:
-		a, b := t.T(x.X), t.T(x.Y)
-		switch x.Op {
-		case token.EQL, token.NEQ:
-			if a > b {
-				a, b = b, a
-			}
-			return "(" + a + " == " + b + ")", x.Op == token.EQL
-		case token.LSS:
-			return "(" + a + " < " + b + ")", true
-		case token.GTR:
-			return "(" + b + " < " + a + ")", true
-		case token.LEQ: // a<=b == !(b<a)
-			return "(" + b + " < " + a + ")", false
-		case token.GEQ: // a>=b == !(a<b)
-			return "(" + a + " < " + b + ")", false
+		if a, p, ok := cmpAtom(x, t.T(x.X), t.T(x.Y)); ok {
+			return a, p
 		}
 	}
 	return t.T(v), true
+}
+
+// cmpAtom normalises a comparison to an atom with polarity. Only "<" and
+// "==" appear in atoms. Comparisons with an integer constant are all brought
+// to the form (x < K) - x > c, x >= c+1, !(x <= c), c < x ... are one atom -
+// and for a value that cannot be negative (len, cap, unsigned types) a test
+// against zero is (0 == x) whichever way it was written (x == 0, x < 1,
+// !(x > 0), x <= 0).
+func cmpAtom(x *ssa.BinOp, a, b string) (string, bool, bool) {
+	op := x.Op
+	switch op {
+	case token.EQL, token.NEQ, token.LSS, token.GTR, token.LEQ, token.GEQ:
+	default:
+		return "", false, false
+	}
+	ca, aConst := constInt(x.X)
+	cb, bConst := constInt(x.Y)
+	lhs := x.X
+	if aConst && !bConst { // put the constant on the right
+		a, b = b, a
+		cb, bConst, aConst = ca, true, false
+		switch op {
+		case token.LSS:
+			op = token.GTR
+		case token.GTR:
+			op = token.LSS
+		case token.LEQ:
+			op = token.GEQ
+		case token.GEQ:
+			op = token.LEQ
+		}
+		lhs = x.Y
+	}
+	if bConst && !aConst && isIntType(lhs.Type()) && cb > negInf+1 && cb < posInf-1 {
+		nonNeg := valueNonNegative(lhs)
+		k := cb
+		pol := true
+		switch op {
+		case token.LSS: // x < k
+		case token.LEQ: // x <= k  ==  x < k+1
+			k++
+		case token.GTR: // x > k   ==  !(x < k+1)
+			k, pol = k+1, false
+		case token.GEQ: // x >= k  ==  !(x < k)
+			pol = false
+		case token.EQL, token.NEQ:
+			lo, hi := a, constTermInt(k)
+			if lo > hi {
+				lo, hi = hi, lo
+			}
+			return "(" + lo + " == " + hi + ")", op == token.EQL, true
+		}
+		if nonNeg && k == 1 { // x < 1  ==  x == 0
+			lo, hi := a, "0"
+			if lo > hi {
+				lo, hi = hi, lo
+			}
+			return "(" + lo + " == " + hi + ")", pol, true
+		}
+		if nonNeg && k <= 0 { // x < 0 is false for such x; keep it recognisable
+			return "(" + a + " < " + constTermInt(k) + ")", pol, true
+		}
+		return "(" + a + " < " + constTermInt(k) + ")", pol, true
+	}
+	switch op {
+	case token.EQL, token.NEQ:
+		if a > b {
+			a, b = b, a
+		}
+		return "(" + a + " == " + b + ")", op == token.EQL, true
+	case token.LSS:
+		return "(" + a + " < " + b + ")", true, true
+	case token.GTR:
+		return "(" + b + " < " + a + ")", true, true
+	case token.LEQ: // a<=b == !(b<a)
+		return "(" + b + " < " + a + ")", false, true
+	case token.GEQ: // a>=b == !(a<b)
+		return "(" + a + " < " + b + ")", false, true
+	}
+	return "", false, false
+}
+
+func constTermInt(k int64) string { return fmt.Sprint(k) }
+
+// valueNonNegative: len/cap results and values of unsigned integer types.
+func valueNonNegative(v ssa.Value) bool {
+	if bt, ok := v.Type().Underlying().(*types.Basic); ok && bt.Info()&types.IsUnsigned != 0 {
+		return true
+	}
+	for {
+		switch x := v.(type) {
+		case *ssa.Convert:
+			v = x.X
+			continue
+		case *ssa.ChangeType:
+			v = x.X
+			continue
+		case *ssa.Call:
+			if b, ok := x.Common().Value.(*ssa.Builtin); ok && (b.Name() == "len" || b.Name() == "cap") {
+				return true
+			}
+		}
+		return false
+	}
 }
 
 // Edge is a conditional CFG edge with what it asserts.
